@@ -22,7 +22,8 @@ ID = 'C16'
 LEVEL = 'exploration'
 RULE = (
     'Hypothesis: 1-D coordinate of n=2..8 dyadic rationals (multiples of '
-    '1/4), ascending or descending, uniform or non-uniform, stored f8 or f4; '
+    '1/4), ascending or descending, uniform or non-uniform, stored f8, f4 or '
+    '(scaled to whole numbers) i4; '
     'bounds representation none / 1-D edges (n+1) / n x 2 (edges at '
     '1/4,1/2,3/4 of each gap, outer edges beyond the end centres; found via '
     '<dim>_bounds, <dim>_bnds or the bounds attribute); method nearest / '
@@ -55,8 +56,9 @@ RULE = (
     'within 1 ulp of an edge/midpoint.  Distinct by sha1 of the case spec.')
 ASSUMPTIONS = ['IEEE double arithmetic and numpy comparison are the '
                'reference for "contains"/"closest"',
-               'integer-typed coordinates and masked coordinates are outside '
-               'the generated domain']
+               'masked coordinates are outside the generated domain; a raise '
+               'other than the requested out-of-bounds rejection is counted, '
+               'not judged (R3)']
 BUDGET = {'quick': dict(examples=6400, max_s=200),
           'thorough': dict(examples=160000, max_s=2400)}
 
@@ -140,12 +142,15 @@ def edges_for(draw, c):
 def cases(draw, tier='quick'):
     kind = draw(st.sampled_from(['val'] * 7 + ['time']))
     c = draw(coords())
+    cdtype = draw(st.sampled_from(['f8', 'f8', 'f8', 'f4', 'f4', 'i4']))
+    if cdtype == 'i4':
+        # integer-typed coordinate: scale the quarters to whole numbers
+        c = [x * 4 for x in c]
     bkind = draw(st.sampled_from(['none', 'none', 'edges', 'nx2']))
     edges = draw(edges_for(c)) if bkind != 'none' else None
     method = draw(st.sampled_from(['nearest', 'nearest', 'bounds', 'bounds',
                                    'exact']))
-    spec = dict(kind=kind, coord=c, cdtype=draw(st.sampled_from(
-        ['f8', 'f8', 'f4'])), bkind=bkind, edges=edges,
+    spec = dict(kind=kind, coord=c, cdtype=cdtype, bkind=bkind, edges=edges,
         bname=draw(st.sampled_from(['_bounds', '_bnds', 'attr'])),
         method=method, bounds=draw(st.sampled_from(
             ['ignore', 'warn', 'warn', 'error'])),
@@ -155,7 +160,8 @@ def cases(draw, tier='quick'):
     if kind == 'time':
         # time axis: the coordinate is in hours; queries at multiples of
         # 1/64 h (= 56.25 s, whole microseconds)
-        spec['cdtype'] = 'f8'
+        if spec['cdtype'] == 'f4':
+            spec['cdtype'] = 'f8'
         spec['ref'] = [draw(st.integers(1950, 2050)), draw(st.integers(1, 12)),
                        draw(st.integers(1, 28)), draw(st.integers(0, 23))]
         pool = []
@@ -179,6 +185,10 @@ def cases(draw, tier='quick'):
         pool = [p for p in pool if lo <= p[0] <= hi]
     idx = draw(st.lists(st.integers(0, len(pool) - 1), min_size=k,
                         max_size=k))
+    if not inside_only and draw(st.booleans()):
+        outs = [i for i, p in enumerate(pool) if p[1] in ('outside',
+                                                          'ext-edge')]
+        idx[draw(st.integers(0, k - 1))] = draw(st.sampled_from(outs))
     spec['queries'] = [pool[i][0] for i in idx]
     spec['scalar'] = (k == 1 and draw(st.booleans()))
     return spec
@@ -217,7 +227,7 @@ def enumerate_cases(tier):
 def build(spec):
     from PseudoNetCDF import PseudoNetCDFFile
     dim = 'time' if spec['kind'] == 'time' else 'x'
-    code = {'f8': 'd', 'f4': 'f'}[spec['cdtype']]
+    code = {'f8': 'd', 'f4': 'f', 'i4': 'i'}[spec['cdtype']]
     c = np.array(spec['coord'], dtype=code)
     f = PseudoNetCDFFile()
     f.createDimension(dim, c.size)
@@ -229,17 +239,18 @@ def build(spec):
     else:
         v.units = 'm'
     if spec['bkind'] != 'none':
-        e = np.array(spec['edges'], dtype=code)
+        ecode = 'd' if code == 'i' else code
+        e = np.array(spec['edges'], dtype=ecode)
         bname = dim + spec['bname'] if spec['bname'] != 'attr' else 'cell_e'
         if spec['bname'] == 'attr':
             v.bounds = bname
         if spec['bkind'] == 'edges':
             f.createDimension('ne', e.size)
-            bv = f.createVariable(bname, code, ('ne',))
+            bv = f.createVariable(bname, ecode, ('ne',))
             bv[:] = e
         else:
             f.createDimension('nv', 2)
-            bv = f.createVariable(bname, code, (dim, 'nv'))
+            bv = f.createVariable(bname, ecode, (dim, 'nv'))
             bv[:] = np.array([e[:-1], e[1:]]).T
     return f, dim
 
@@ -281,14 +292,15 @@ def call(spec):
 # ------------------------------------------------------------------ oracle
 def check_case(spec):
     r = Result()
-    code = {'f8': 'd', 'f4': 'f'}[spec['cdtype']]
+    code = {'f8': 'd', 'f4': 'f', 'i4': 'i'}[spec['cdtype']]
     c = np.array(spec['coord'], dtype=code).astype('d')
     n = c.size
     desc = bool(c[1] < c[0])
     diffs = np.diff(c)
     uniform = bool((diffs == diffs[0]).all())
     hasb = spec['bkind'] != 'none'
-    E = np.array(spec['edges'], dtype=code).astype('d') if hasb else None
+    E = np.array(spec['edges'], dtype='d' if code == 'i' else code).astype(
+        'd') if hasb else None
     q = np.array(spec['queries'], dtype='d')
     method = spec['method']
     lnan = spec['left'] is not None
@@ -572,7 +584,7 @@ def _is_desc(spec):
 
 
 def _uniform(spec):
-    code = {'f8': 'd', 'f4': 'f'}[spec['cdtype']]
+    code = {'f8': 'd', 'f4': 'f', 'i4': 'i'}[spec['cdtype']]
     d = np.diff(np.array(spec['coord'], dtype=code))
     return bool((d == d[0]).all())
 
